@@ -17,6 +17,7 @@ type StructOpt struct {
 	Depth    int
 	TypeOK   func(*progen.Type) bool
 	Enumerated []*progen.Type // extra fixed types (bounded-exhaustive slices)
+	TopShapes  bool           // wrap most drawn types in a top-level pointer / slice / map (DeepCopy's argument forms)
 }
 
 // DrawStructural draws an environment and NTypes distinct argument types and emits the wrappers
@@ -44,6 +45,16 @@ func DrawStructural(rt *rapid.T, o StructOpt) *Subject {
 			}
 		default:
 			t = env.DrawType(rt, rapid.IntRange(0, depth).Draw(rt, "tdepth"))
+		}
+		if o.TopShapes {
+			switch rapid.IntRange(0, 4).Draw(rt, "topshape") {
+			case 0, 1:
+				t = progen.PtrTo(t)
+			case 2:
+				t = progen.SliceOf(t)
+			case 3:
+				t = progen.MapOf(env.DrawKey(rt, 1), t)
+			}
 		}
 		k := progen.AssignKey(t)
 		if seen[k] {
